@@ -34,10 +34,10 @@ domainvalid(const char * const host)
 			 return 1;
 		}
 		if (*h == '.') {
-			const char *lastdt = (dt == NULL) ? host : dt;
+			const char *lstart = (dt == NULL) ? host : dt + 1;	/* start of this label */
 
 			/* each string between two dots must not exceed 63 characters */
-			if (h - lastdt > 64)
+			if (h - lstart > 63)
 				return 1;
 			dt = h;
 			h++;
